@@ -7,6 +7,7 @@ package c01
 
 import (
 	"fmt"
+	"os"
 	"regexp"
 	"strings"
 	"testing"
@@ -20,6 +21,8 @@ import (
 type Case struct {
 	Kind string `json:"kind"`
 	Src  string `json:"src"`
+	// Tags name the input classes the generator drew for this case (distribution counters only)
+	Tags []string `json:"tags,omitempty"`
 }
 
 var wildPrelude = wild.Prelude
@@ -35,6 +38,8 @@ func execFresh(src string) outcome {
 	theWorker, recent = saved, savedRecent
 	return o
 }
+
+var goStmtRe = regexp.MustCompile(`(^|[^A-Za-z0-9_])go[ \t]`)
 
 var numRe = regexp.MustCompile(`0x[0-9a-f]+|\d{3,}`)
 
@@ -66,6 +71,10 @@ func oracle(c Case, o *h.Obs) *h.Fail {
 	out := execInWorker(src)
 	o.Class("kind_" + c.Kind)
 	o.Class("status_" + out.Status)
+	for _, tg := range c.Tags {
+		o.Class(tg)
+		o.Class(tg + "_" + out.Status)
+	}
 	switch out.Status {
 	case "ok", "run-error":
 		o.NonTrivial = true
@@ -81,7 +90,18 @@ func oracle(c Case, o *h.Obs) *h.Fail {
 		o.Excluded = "outside the guarantee: " + out.Status
 		return nil
 	case "panic":
-		if isolated := execFresh(src); isolated.Status != "panic" {
+		isolated := execFresh(src)
+		if goStmtRe.MatchString(strings.TrimPrefix(src, wildPrelude)) {
+			// the source starts script goroutines: whether the panic shows may depend on the interleaving, so a
+			// fresh process gets a few more runs before the failure is attributed to anything else
+			for try := 1; try < 4 && isolated.Status != "panic"; try++ {
+				isolated = execFresh(src)
+			}
+			if isolated.Status != "panic" {
+				return h.Failf("C01|panic-schedule-dependent|"+normMsg(out.Msg)+"|"+siteOf(out.Msg), "a Go panic escaped from running this source on the calling goroutine (non-debug mode); the source starts script goroutines and the panic did not show again in 4 runs in fresh processes, so it depends on the interleaving of the goroutines:\n%s\npanic: %s", src, out.Msg)
+			}
+		}
+		if isolated.Status != "panic" {
 			// the same source does not panic in a fresh worker process: the failure depends on
 			// what ran earlier in that process (shared state inside anko). Report the history.
 			return h.Failf("C01|panic-depends-on-process-history|"+normMsg(out.Msg)+"|"+siteOf(out.Msg), "a Go panic escaped while running this source, but only after other sources had run in the same process (it does not panic in a fresh process): shared mutable state\nsource:\n%s\npanic: %s\nsources run before it in that process (oldest first):\n%s", src, out.Msg, hist)
@@ -102,7 +122,7 @@ func oracle(c Case, o *h.Obs) *h.Fail {
 // ---------- generators ----------
 
 func genWild(t *rapid.T) Case {
-	return Case{"wild", wild.Program(t, wild.Opts{Loops: true, Go: true, HugeInts: true, Prelude: true, MaxDepth: 3, MaxStmts: 3})}
+	return Case{Kind: "wild", Src: wild.Program(t, wild.Opts{Loops: true, Go: true, HugeInts: true, Prelude: true, MaxDepth: 3, MaxStmts: 3})}
 }
 
 // operand universe for the targeted templates: names bound by wild.Prelude, literals,
@@ -188,6 +208,15 @@ var templates = []string{
 	"%Z\nx = [0, 0]\nx[fz()], y = %z", "%Z\nx = [0, 0]\nx[fz()], y, w = %z", "%Z\nx = {}\nx[fz()], x.b = %z", "%Z\nvar a, b = %z, fz()", "%Z\na, b = %z, fz()\na[1]", "%Z\nfor v in %z { fz() }", "%Z\nfor i, v in %z { fz(); [i, v] }",
 	"%Z\n%z[fz():]", "%Z\n%z[1:fz() + 2]", "%Z\n%z[fz() + 1]", "%Z\n%z[1] = fz()", "%Z\n%z[fz() + 1] = 5", "%Z\n%z[fz():2] = [7]", "%Z\n%z + [fz()]", "%Z\n%z += [fz()]", "%Z\nlen(%z) + fz()", "%Z\n(fz() in %z)", "%Z\n(%z[1] in [fz()])",
 	"%Z\nfunc fy(a, b) { return a[1] }\nfy(%z, fz())", "%Z\nfunc fy(a...) { return a[0][1] }\nfy(%z, fz())", "%Z\ndefer func(a, b) { a[1] }(%z, fz())", "%Z\ngo func(a, b) { a[1] }(%z, fz())", "%Z\ntakesInt(%z[1], fz())", "%Z\nswitch %z[1] { case fz(): 1 }", "%Z\n[%z[1], fz()]", "%Z\nreturn %z[1], fz()",
+	// (c) assignments that create a container and store it back where the missing one came from: a member or an
+	// index of a nil map, the element one past the end of a slice. %W puts a nil map (or a nil / empty slice) into a
+	// home of every form (variable, entry of a typed or untyped map reached by index or by name, element of a typed
+	// slice, struct field, pointee, module member, two such steps in a row, a call result) and %w names that home
+	// (%U does the same for the statements about element positions); %v is a value to store
+	"%W\n%w.x = %v", "%W\n%w.x = %v\n%w.x", "%W\n%w.x = 1\n%w.y = %v\n[%w.x, len(%w)]", "%W\n%w.x += %v", "%W\n%w.x++", "%W\n%w.x, wy = %v, 1", "%W\nwy, %w.x = 1, %v", "%W\n%w.x.y = %v", "%W\n%w.x[%s] = %v",
+	"%W\n%w[\"x\"] = %v", "%W\n%w[%s] = %v", "%W\n%w[\"x\"] += %v", "%W\n%w[\"x\"].y = %v", "%W\n%w[\"x\"], %w.y = %v, %s", "%W\nfor wk in [1, 2] { %w.x = wk }\n%w", "%W\nfor wk in [\"a\", \"b\"] { %w[wk] = %v }\n%w",
+	"%U\n%w[len(%w)] = %v", "%U\n%w[0] = %v\n%w[1] = %v\n%w", "%U\n%w[0], %w[1] = %v, %s", "%U\n%w[0].x = %v", "%U\n%w[0][0] = %v", "%U\n%w[0]++", "%U\n%w[0] += %v", "%U\n%w[:0] = [%v]", "%U\n%w += [%v]", "%W\n%w = %v\n%w.x = 1",
+	"%W\ngo func() { %w.x = %v }()", "%U\ndefer func() { %w[0] = %v }()", "%W\nfunc wf(a) { %w.x = a; return %w }\nwf(%v)", "%U\ntry { %w.x = %v } catch e { %w[0] = e }", "%W\ndelete(%w, \"x\")\n%w.x = %v\ndelete(%w, \"x\")\n[len(%w), %w.x]",
 }
 
 // bigTypeDefs defines the type BT: a struct of structs ... of int64 fields, 8 bytes times fan^levels.
@@ -220,9 +249,46 @@ var slotDefs = [][2]string{
 }
 var slotShrinks = []string{"make([]int64, 0)", "[]", "nil", "[]int64{9}", "make([]int64, 0, 8)", "\"\"", "0"}
 
+// homes of the write-back class: a setup that leaves a nil map (or a nil / empty slice) in a place, the expression that
+// names the place, and the form of the place (a class counter)
+var wbHomes = [][4]string{
+	{"wz = make([]map[string]int64, 1)[0]", "wz", "variable", "map"},
+	{"var wz = make([][]int64, 1)[0]", "wz", "variable", "slice"},
+	{"wz = make(map[string]map[string]int64)\nwz[\"a\"] = nil", "wz[\"a\"]", "typed-map-entry-by-index", "map"},
+	{"wz = make(map[string]map[string]int64)\nwz.a = nil", "wz.a", "typed-map-entry-by-name", "map"},
+	{"wz = make(map[string]map[string]int64)", "wz.a", "typed-map-entry-absent", "map"},
+	{"wz = make(map[string]map[string]int64)", "wz[\"a\"]", "typed-map-entry-absent", "map"},
+	{"wz = make(map[int64]map[string]int64)\nwz[1] = nil", "wz[1]", "typed-map-entry-by-index", "map"},
+	{"wz = make(map[string]map[string]interface)\nwz.a = nil", "wz.a", "typed-map-entry-by-name", "map"},
+	{"wz = make(map[string]map[int64]string)\nwz[\"a\"] = nil", "wz[\"a\"]", "typed-map-entry-by-index", "map"},
+	{"wz = make(map[string][]int64)\nwz.a = nil", "wz.a", "typed-map-entry-by-name", "slice"},
+	{"wz = make(map[string][]int64)\nwz[\"a\"] = make([]int64, 0)", "wz[\"a\"]", "typed-map-entry-by-index", "slice"},
+	{"wz = make(map[string][]map[string]int64)\nwz.a = make([]map[string]int64, 1)", "wz.a[0]", "two-steps", "map"},
+	{"wz = make(map[string]map[string]map[string]int64)\nwz.a = make(map[string]map[string]int64)\nwz.a.b = nil", "wz.a.b", "two-steps", "map"},
+	{"wz = make([]map[string]map[string]int64, 1)\nwz[0] = make(map[string]map[string]int64)\nwz[0].b = nil", "wz[0].b", "two-steps", "map"},
+	{"wz = make(struct{M map[string]map[string]int64})\nwz.M = make(map[string]map[string]int64)\nwz.M.b = nil", "wz.M[\"b\"]", "two-steps", "map"},
+	{"wz = {\"a\": make([]map[string]int64, 1)[0]}", "wz.a", "untyped-map-entry", "map"},
+	{"wz = {\"a\": make([][]int64, 1)[0]}", "wz[\"a\"]", "untyped-map-entry", "slice"},
+	{"wz = {}\nwz.a = make(map[string]map[string]int64)\nwz.a.b = nil", "wz.a.b", "two-steps", "map"},
+	{"wz = make([]map[string]int64, 1)", "wz[0]", "typed-slice-element", "map"},
+	{"wz = make([][]int64, 1)", "wz[0]", "typed-slice-element", "slice"},
+	{"wz = [make([]map[string]int64, 1)[0], make([][]int64, 1)[0]]", "wz[0]", "untyped-slice-element", "slice"},
+	{"wz = make(struct{M map[string]int64, L []int64})", "wz.M", "struct-field", "map"},
+	{"wz = make(struct{M map[string]int64, L []int64})", "wz.L", "struct-field", "slice"},
+	{"wz = new(map[string]int64)", "(*wz)", "pointee", "map"},
+	{"wz = new([]int64)", "(*wz)", "pointee", "slice"},
+	{"module wm { v = make([]map[string]int64, 1)[0]; w = make(map[string]map[string]int64); w.a = nil }", "wm.v", "module-member", "map"},
+	{"module wm { v = make([]map[string]int64, 1)[0]; w = make(map[string]map[string]int64); w.a = nil }", "wm.w.a", "two-steps", "map"},
+	{"wz = make([]map[string]int64, 1)[0]", "id(wz)", "call-result", "map"},
+	{"wz = make(chan map[string]int64, 1)\nwz <- nil\nclose(wz)", "(<-wz)", "call-result", "map"},
+}
+
+var wbValues = []string{"1", "0", "-1", "7", "2.5", "i", "true", "nil", "{}", "[]", "[1]", "make(map[string]int64)", "make([]int64, 0)", "tm", "tl", "\"k\""}
+
 func (c *Case) fill(t *rapid.T, tmpl string) string {
 	var b strings.Builder
 	slot := 0
+	home := 0
 	for i := 0; i < len(tmpl); i++ {
 		if tmpl[i] == '%' && i+1 < len(tmpl) {
 			if tmpl[i+1] == 's' {
@@ -247,6 +313,39 @@ func (c *Case) fill(t *rapid.T, tmpl string) string {
 			}
 			if tmpl[i+1] == 'z' {
 				b.WriteString(slotDefs[slot][1])
+				i++
+				continue
+			}
+			if tmpl[i+1] == 'W' || tmpl[i+1] == 'U' {
+				// %W: a statement about a member / key (four times out of five the home holds a nil map), %U: about an
+				// element position (four times out of five the home holds a nil or empty slice)
+				want := "map"
+				if tmpl[i+1] == 'U' {
+					want = "slice"
+				}
+				home = int(rapid.Uint64().Draw(t, "home") % uint64(len(wbHomes)))
+				if rapid.Uint64().Draw(t, "anyhome")%5 != 0 {
+					for wbHomes[home][3] != want {
+						home = (home + 1) % len(wbHomes)
+					}
+				}
+				b.WriteString(wbHomes[home][0])
+				c.Tags = append(c.Tags, "writeback", "writeback_home_"+wbHomes[home][2])
+				i++
+				continue
+			}
+			if tmpl[i+1] == 'v' {
+				// a value to store: half of the time one that fits an int64 / map / slice element, else any operand
+				if rapid.Bool().Draw(t, "fits") {
+					b.WriteString(pickU(t, "fitting", wbValues))
+				} else {
+					b.WriteString(genOperand(t, 1))
+				}
+				i++
+				continue
+			}
+			if tmpl[i+1] == 'w' {
+				b.WriteString(wbHomes[home][1])
 				i++
 				continue
 			}
@@ -336,6 +435,72 @@ func genTargeted(t *rapid.T) Case {
 	return c
 }
 
+// ---------- script goroutines that share one variable of an enclosing scope ----------
+
+// genScopes builds programs in which two script goroutines share nothing but a variable (never a container): in
+// every round a scope is entered, the variable dx is created in it (alone, or next to other symbols), and then one
+// side keeps assigning to dx (from a nested scope, or in the scope itself) while the other side deletes dx (global
+// or local form of delete, once or repeatedly). What the two sides touch together is the symbol table of the scope,
+// which belongs to the interpreter.
+var scopeForms = [][2]string{
+	{"", ""}, // the body of the round loop itself
+	{"if true { ", " }"},
+	{"if false { } else { ", " }"},
+	{"try { ", " } catch e { }"},
+	{"try { throw 1 } catch e { ", " }"},
+	{"try { } catch e { } finally { ", " }"},
+	{"switch 1 { case 1: ", " }"},
+	{"switch 1 { default: ", " }"},
+	{"for cq in [1] { ", " }"},
+	{"for cq = 0; cq < 1; cq++ { ", " }"},
+	{"for { ", "; break }"},
+}
+var scopeExtras = []string{"", "", "dy = 1; ", "func dh() { return 1 }; ", "dy = 1; var du, dv = 1, 2; "}
+
+// what the assigning side does, once per step
+var scopeWrites = []string{"dx = ck", "dx = ck", "dx, dz = ck, 1", "dz, dx = 1, ck", "try { dx += 1 } catch e { }", "try { dx++ } catch e { }", "var dx = ck", "dx = %s", "if true { dx = ck }", "dx = dx ?? 0"}
+var scopeDeletes = []string{"delete(\"dx\", true)", "delete(\"dx\", true)", "delete(\"dx\")", "for ci = 0; ci < 40; ci++ { delete(\"dx\", true) }", "delete(\"dx\", true); dx = 5; delete(\"dx\", true)", "delete(\"dx\", true); delete(\"dy\", true)"}
+
+func genScopes(t *rapid.T) Case {
+	c := Case{Kind: "scopes"}
+	pick := func(label string, n int) int { return int(rapid.Uint64().Draw(t, label) % uint64(n)) }
+	rounds := []int{15, 30, 60}[pick("rounds", 3)]
+	steps := []int{100, 200, 400}[pick("steps", 3)]
+	form := pick("form", len(scopeForms))
+	extra := scopeExtras[pick("extra", len(scopeExtras))]
+	write := c.fill(t, scopeWrites[pick("write", len(scopeWrites))])
+	del := scopeDeletes[pick("delete", len(scopeDeletes))]
+	init := c.fill(t, []string{"0", "0", "%s"}[pick("init", 3)])
+	var body string
+	switch role := pick("role", 4); role {
+	case 0, 1:
+		// the calling goroutine assigns from a loop nested in the scope, a script goroutine deletes
+		c.Tags = append(c.Tags, "scopes_main-assigns-nested")
+		body = fmt.Sprintf("go func() { %s }(); for ck = 0; ck < %d; ck++ { %s }", del, steps, write)
+	case 2:
+		// the calling goroutine assigns in the scope itself (straight-line statements), a script goroutine keeps deleting
+		c.Tags = append(c.Tags, "scopes_main-assigns-inline")
+		w := strings.ReplaceAll(write, "ck", "1")
+		body = fmt.Sprintf("go func() { for ci = 0; ci < 60; ci++ { %s } }(); %s", del, strings.TrimSuffix(strings.Repeat(w+"; ", 12), "; "))
+	default:
+		// a script goroutine assigns, the calling goroutine deletes in the scope itself
+		c.Tags = append(c.Tags, "scopes_goroutine-assigns")
+		body = fmt.Sprintf("go func() { for ck = 0; ck < %d; ck++ { %s } }(); %s", steps/4, write, del)
+	}
+	if extra == "" {
+		c.Tags = append(c.Tags, "scopes_single-symbol")
+	} else {
+		c.Tags = append(c.Tags, "scopes_several-symbols")
+	}
+	if strings.Contains(del, "\"dx\", true") {
+		c.Tags = append(c.Tags, "scopes_delete-global-form")
+	} else {
+		c.Tags = append(c.Tags, "scopes_delete-local-form")
+	}
+	c.Src = wild.Prelude + fmt.Sprintf("for cn = 0; cn < %d; cn++ { %s%sdx = %s; %s%s }", rounds, scopeForms[form][0], extra, init, body, scopeForms[form][1])
+	return c
+}
+
 var vocab = []string{
 	"func", "return", "var", "throw", "if", "for", "break", "continue", "in", "else", "new", "true", "false", "nil", "module", "try", "catch", "finally",
 	"switch", "case", "default", "go", "defer", "chan", "struct", "make", "type", "len", "delete", "close", "map", "import",
@@ -346,7 +511,7 @@ var vocab = []string{
 func genMutated(t *rapid.T) Case {
 	switch rapid.IntRange(0, 5).Draw(t, "mkind") {
 	case 0:
-		return Case{"bytes", string(rapid.SliceOfN(rapid.Byte(), 0, 40).Draw(t, "bytes"))}
+		return Case{Kind: "bytes", Src: string(rapid.SliceOfN(rapid.Byte(), 0, 40).Draw(t, "bytes"))}
 	case 1, 2:
 		n := rapid.IntRange(0, 14).Draw(t, "ntok")
 		var b strings.Builder
@@ -358,7 +523,7 @@ func genMutated(t *rapid.T) Case {
 		if rapid.Bool().Draw(t, "prelude") {
 			pre = wild.Prelude
 		}
-		return Case{"soup", pre + b.String()}
+		return Case{Kind: "soup", Src: pre + b.String()}
 	default:
 		body := []rune(wild.Program(t, wild.Opts{Loops: true, Go: true, HugeInts: true, MaxDepth: 2, MaxStmts: 3}))
 		if len(body) > 0 {
@@ -383,7 +548,7 @@ func genMutated(t *rapid.T) Case {
 				body = append(append(append([]rune{}, body[:end]...), body[at:end]...), body[end:]...)
 			}
 		}
-		return Case{"mutated", wild.Prelude + string(body)}
+		return Case{Kind: "mutated", Src: wild.Prelude + string(body)}
 	}
 }
 
@@ -395,8 +560,20 @@ func TestC01(t *testing.T) {
 			theWorker.kill()
 		}
 	}()
-	c.Rule(fmt.Sprintf("every case is parsed and run with Options{} (debug=false) in a sandbox worker process, in an environment of script-constructible values plus Go functions over such values (core builtins, id, a panicking function, typed/variadic/array/callback-taking functions, a small import table). targeted: %d statement templates (every assignment target form, empty right-hand sides, calls/go/defer with 0..n and spread arguments, for-in, switch, delete/close/send/receive, make/new with every type form incl. dotted paths, typed literals, import, every operator, index/slice/member, throw, op=) filled from %d operand expressions of every value kind and provenance; wild: whole programs from the full-grammar generator after a value-universe prelude; mutated: token soups, random bytes, truncations/deletions/insertions/duplications of valid programs. non-trivial = the source parsed and was executed (ok or run-time error); distinct by source text", len(templates), len(operands)))
+	c.Rule(fmt.Sprintf("every case is parsed and run with Options{} (debug=false) in a sandbox worker process, in an environment of script-constructible values plus Go functions over such values (core builtins, id, a panicking function, typed/variadic/array/callback-taking functions, a small import table). targeted: %d statement templates (every assignment target form, empty right-hand sides, calls/go/defer with 0..n and spread arguments, for-in, switch, delete/close/send/receive, make/new with every type form incl. dotted paths, typed literals, import, every operator, index/slice/member, throw, op=) filled from %d operand expressions of every value kind and provenance; wild: whole programs from the full-grammar generator after a value-universe prelude; mutated: token soups, random bytes, truncations/deletions/insertions/duplications of valid programs; scopes: programs in which two script goroutines share nothing but one variable of an enclosing scope of every form (one side keeps assigning to it, the other deletes it). non-trivial = the source parsed and was executed (ok or run-time error); distinct by source text", len(templates), len(operands)))
+	if os.Getenv("C01_OLD") != "" {
+		var old []string
+		for _, tm := range templates {
+			if !strings.Contains(tm, "%W") && !strings.Contains(tm, "%U") {
+				old = append(old, tm)
+			}
+		}
+		templates = old
+	}
 	h.Run(c, "targeted", c.N(20000, 250000), genTargeted, oracle)
 	h.Run(c, "wild", c.N(12000, 150000), genWild, oracle)
 	h.Run(c, "mutated", c.N(8000, 100000), genMutated, oracle)
+	if os.Getenv("C01_OLD") == "" {
+		h.Run(c, "scopes", c.N(300, 4000), genScopes, oracle)
+	}
 }
